@@ -18,14 +18,18 @@ ASSUMPTIONS = [
 OBLIGATIONS = [
     chx("availability_read", "C46_h", "h_read",
         bounds={"quick": {"NSRV": 2, "NF": 3}, "thorough": {"NSRV": 3, "NF": 3}},
-        cases={"quick": [{"k": 1, "_label": "k1"}, {"k": 2, "_label": "k2"}],
+        cases={"quick": [{"k": k, "LATE": l, "a0both": b, "_label": "k%d%s%s" % (k, ".late" if l else "", ".both" if b else "")}
+                         for k in (1, 2) for l in (0, 1) for b in (0, 1)],
                "thorough": [{"k": k, "a0": a, "_label": "3srv.k%da%d" % (k, a)} for k in (1, 2) for a in range(5)]
-                           + [{"k": k, "a0": a, "NSRV": 2, "NF": 5, "_label": "2srv5f.k%da%d" % (k, a)} for k in (1, 2) for a in (2, 3, 4)]},
+                           + [{"k": k, "a0": a, "LATE": 1, "_label": "3srv.late.k%da%d" % (k, a)} for k in (1, 2) for a in range(5)]
+                           + [{"k": k, "a0": a, "NSRV": 2, "NF": 5, "_label": "2srv5f.k%da%d" % (k, a)} for k in (1, 2) for a in (2, 3, 4)]
+                           + [{"k": k, "a0": a, "NSRV": 2, "NF": 5, "LATE": 1, "_label": "2srv5f.late.k%da%d" % (k, a)} for k in (1, 2) for a in (2, 3, 4)]},
         timeout={"quick": 150, "thorough": 1500},
         desc="the property statement at the level of one segment read: real ShareFinder + real SegmentFetcher + real DownloadNode request life cycle against NSRV servers, each "
              "answering the share query with an error / nothing / share 0 / share 1 / both, each share good, dead, overdue-then-good (thorough: also corrupt, overdue-then-dead), "
-             "notifications oldest-first or newest-first, optionally a second read on the same node: the read delivers data iff at least k distinct share numbers have a good share "
-             "(and decodes only from good blocks), otherwise it fails with NotEnoughSharesError/NoSharesError; it fires exactly once",
+             "notifications oldest-first or newest-first, optionally a second read on the same node; LATE cases: at least one server answers the share query only after the finder's "
+             "overdue timer for that query has fired (the harness fires the timer, then delivers the answer): the read delivers data iff at least k distinct share numbers have a good "
+             "share on ANY server that eventually answers (and decodes only from good blocks), otherwise it fails with NotEnoughSharesError/NoSharesError; it fires exactly once",
         outside="Share internals (block/hash validation is scripted as the share's fate), overdue timers firing by time, more than 2 share numbers / 3 servers, other interleavings"),
     chx("fetcher_step", "C03_h", "h_step",
         bounds={"quick": {"NREC": 2, "NSH": 2, "NSV": 2, "KMAX": 2, "LIMIT": 2}, "thorough": {"NREC": 3, "NSH": 3, "NSV": 2, "KMAX": 3, "LIMIT": 2}},
